@@ -338,6 +338,7 @@ static void quiesce(void){
     /* ... YieldBeg, QPop(q,0), YieldEnd, U_YieldRet: the local queue was empty, nothing was switched to */
     if (vrt_peek(3, &nm, &la) && !strcmp(nm, "QPop") && vrt_peek_arg(3, 2) == 0 && vrt_all_others_idle()) break;
     if (++guard > 3000) vrt_giveup("HANG");      /* the system never becomes quiescent */
+    myth_verif_spin(99);     /* "I cannot progress until the others move": priority-based strategies must let them run */
   }
 }
 
